@@ -354,8 +354,22 @@ def rule_r4(ctx, rep):
             pts += [(hi, False), (hi + 1e-9, True), (math.inf, True), (-big, True), (big, True)]
         else:
             pts += [(big, False), (-big, True)]
-        for (x, want_reject) in pts:
-            e = dict(env)
+        # locals bound once to a constant (hoisted bounds) are part of the environment
+        consts = {}
+        for n in ast.walk(g_fi.node):
+            if isinstance(n, ast.Assign) and len(n.targets) == 1 and isinstance(n.targets[0], ast.Name) and n.targets[0].id not in valvars:
+                nm_ = n.targets[0].id
+                v_ = prog.const(g_fi.module, n.value)
+                if isinstance(v_, (int, float)) and not isinstance(v_, bool) and sum(1 for m in ast.walk(g_fi.node) if isinstance(m, ast.Name) and m.id == nm_
+                                                                                      and isinstance(m.ctx, ast.Store)) == 1:
+                    consts[nm_] = v_
+        g_mp = mode_params(ctx, reachable(ctx, [g_fi])).get(g_fi.qname)
+        modes = [None, [], ["earlier error"]] if g_mp else [None]
+        for (x, want_reject), mode_val in [(pt, mv) for pt in pts for mv in modes]:
+            e = dict(consts)
+            e.update(env)
+            if g_mp:
+                e[g_mp] = mode_val
             for v in valvars:
                 e[v] = x
             verdict = True
@@ -378,12 +392,12 @@ def rule_r4(ctx, rep):
                     break
             rep.count("range verdict points")
             ok = verdict is not None and verdict == want_reject
-            rep.oblige(("R4", name, repr(x)), ok, sample={"kind": name, "value": repr(x), "rejected": verdict, "required": want_reject,
+            rep.oblige(("R4", name, repr(x), repr(mode_val)), ok, sample={"kind": name, "value": repr(x), "rejected": verdict, "required": want_reject,
                                                           "via": " -> ".join(chain)} if x in (lo, hi) or x != x else None)
             if not ok:
                 what = "raises " + str(res[1]) if verdict is None else ("rejected" if verdict else "accepted")
                 rep.add("R4", g_fi.qname, guards[-1][0].test,
-                        f"'{name}' value {x!r} is {what}; the content constraint "
+                        f"'{name}' value {x!r} is {what}{' when the error list already holds an error' if mode_val else ''}; the content constraint "
                         f"[{lo}, {'+inf' if not finite else hi}] requires it to be {'rejected' if want_reject else 'accepted'}",
                         g_fi.loc(guards[-1][0]))
                 break
